@@ -384,8 +384,10 @@ func load(ctx context.Context, wd string, env []string, tags string, patterns []
 		BuildFlags: []string{"-tags=wireinject"},
 		// TODO(light): Use ParseFile to skip function bodies and comments in indirect packages.
 	}
-	if len(tags) > 0 {
-		cfg.BuildFlags[0] += " " + tags
+	// The go tool wants the tags separated by commas; separated by spaces,
+	// its older syntax, or both are accepted here.
+	for _, tag := range strings.FieldsFunc(tags, func(r rune) bool { return r == ',' || r == ' ' }) {
+		cfg.BuildFlags[0] += "," + tag
 	}
 	escaped := make([]string, len(patterns))
 	for i := range patterns {
